@@ -41,7 +41,7 @@ namespace cds_static { class BitSequence; class Sequence; }
 
 struct State {
   bool noisolate = false;
-  unsigned query_timeout = 10;
+  unsigned query_timeout = 30; // watchdog of an isolated query (a hang is still detected; 10 s was exceeded on a heavily loaded machine)
   // C17
   LogSequence *ls = nullptr;
   DAC_VLS *dac = nullptr;
